@@ -4,7 +4,7 @@
   code the marker line carries (repaired switches rcSkipDigit = false, rcEveryLine = false).
   Property theorems are in Props/C08.lean.
 -/
-import PdshVerif.Relay.RunLemmas
+import PdshVerif.Relay.RunFifo
 import PdshVerif.Dsh.ExitRefine
 
 namespace PdshVerif.Dsh.ExitRelay
@@ -179,11 +179,14 @@ structure RelayTarget where
   late     : Bytes
   code     : Nat
 
-/-- the domain: a cbuf as dsh.c creates it, lines within the buffer's maximum (`Room`, C05's domain), the
+/-- the domain: a cbuf as dsh.c creates it (`growthOk`: the decidable side condition of Relay/Growth.lean on the
+    regenerated constants and the build flavour's bookkeeping cells -- Props/C05 `growthOk_generated(_assert)` for
+    the two flavours that exist, `Relay.growthOk_of_le` for every 1 <= sizeMeta <= 928 without evaluation),
+    lines within the buffer's maximum (`Room`, C05's domain), the
     command's output and the late output free of the byte 'X' (hence marker-free), no NUL in the unterminated
     text right before the marker, an exit code -/
 def RelayTarget.ok (t : RelayTarget) : Prop :=
-  1 ≤ t.sizeMeta ∧ t.sizeMeta ≤ 800 ∧ mkFifoBuf t.sizeMeta = some t.b0 ∧
+  growthOk t.sizeMeta = true ∧ mkFifoBuf t.sizeMeta = some t.b0 ∧
   t.script.flatten = t.user ++ (magic ++ digitsB t.code ++ [10] ++ t.late) ∧ Room t.script.flatten ∧
   (88 : UInt8) ∉ t.user ∧ (88 : UInt8) ∉ t.late ∧ (0 : UInt8) ∉ (split t.user).2 ∧ t.code < 256
 
